@@ -2,7 +2,7 @@
 import itertools, math, random, threading
 from .. import tlc, gen, common, sched
 
-OPS1 = '{"SetConst","SetInit","SetFlow","SetConv","SetStockEq","SetW","Eval","EvalElem","Plot","ResetCache","RunTwice"}'
+OPS1 = '{"SetConst","SetInit","SetInitElem","SetFlow","SetConv","SetStockEq","SetW","Eval","EvalElem","Plot","ResetCache","RunTwice"}'
 
 
 def consts(dev='{}', threads='("t1" :> "x" @@ "t2" :> "z")'):
@@ -23,7 +23,7 @@ def apply_defs(m, defs, all_=False, only=None):
     if all_ or only == "c": c.equation = float(defs["c"])
     if all_ or only == "f": f.equation = c if defs["fv"] == 1 else 2.0 * c
     if all_ or only == "s":
-        s.initial_value = float(defs["iv"])
+        s.initial_value = c if defs.get("ive", 0) == 1 else float(defs["iv"])       # a number, or the element c itself
     if all_ or only == "seq": s.equation = f if defs.get("sv", 1) == 1 else f + f
     w = m.constants["w"]
     if (all_ or only == "w") and defs.get("w", 0) > 0: w.equation = float(defs["w"])      # w has no equation until it is first set
@@ -49,7 +49,7 @@ def noisy_runs(b, m, defs):
         return ("f changed between two runs of the same scenario", runs[0]["f"], r2["f"])
     if any(abs(fv - k * cv) > 1e-9 for fv, cv in zip(r2["f"], r2["c"])):
         return ("the value reported for the stochastic constant c is not the value f consumed", [fv / k for fv in r2["f"]], r2["c"])
-    acc = float(defs["iv"])
+    acc = r2["s"][0] if defs.get("ive", 0) == 1 else float(defs["iv"])
     for i in range(1, len(r2["s"])):
         acc += r2["f"][i - 1] * defs.get("sv", 1)
         if abs(r2["s"][i] - acc) > 1e-9:
@@ -62,7 +62,7 @@ def noisy_runs(b, m, defs):
 def reference(defs, e, t):
     """closed form of the reference model"""
     c = float(defs["c"]); fl = c if defs["fv"] == 1 else 2.0 * c
-    s = float(defs["iv"]) + fl * defs.get("sv", 1) * t
+    s = (c if defs.get("ive", 0) == 1 else float(defs["iv"])) + fl * defs.get("sv", 1) * t
     w = float(defs.get("w", 0))
     return {"c": c, "f": fl, "s": s, "w": w, "y": s * 2.0 + w if defs["yv"] == 1 else s + 10.0 + w}[e]
 
@@ -74,7 +74,7 @@ def replay1(hist):
         op = h["op"]
         try:
             if op == "SetConst": apply_defs(m, h["defs"], only="c")
-            elif op == "SetInit": apply_defs(m, h["defs"], only="s")
+            elif op in ("SetInit", "SetInitElem"): apply_defs(m, h["defs"], only="s")
             elif op == "SetFlow": apply_defs(m, h["defs"], only="f")
             elif op == "SetConv": apply_defs(m, h["defs"], only="y")
             elif op == "SetStockEq": apply_defs(m, h["defs"], only="seq")
@@ -198,10 +198,10 @@ def run(tier, replay_file=None):
         raise common.Machinery("deviation D08a does not violate NoStale in the spec")
     hs, _ = gen.histories("Memo", consts(), 12 if quick else 18, simulate=60 if quick else 800, seed=common.seed() + 31, cache=False,
                           extra_cfg={"init": "Init1", "next": "Next1"})
-    b1 = dict(consts()); b1["Ops"] = '{"SetConst","SetInit","SetFlow","SetConv","SetStockEq","SetW","Eval"}'; b1["Times"] = '{2}'; b1["CVals"] = '{1,3}'; b1["IVals"] = '{0,5}'
+    b1 = dict(consts()); b1["Ops"] = '{"SetConst","SetInit","SetInitElem","SetFlow","SetConv","SetStockEq","SetW","Eval"}'; b1["Times"] = '{2}'; b1["CVals"] = '{1,3}'; b1["IVals"] = '{0,5}'
     bfs, _ = gen.histories("Memo", b1, 3 if quick else 4, extra_cfg={"init": "Init1", "next": "Next1"})
     # the memo filled through one route only (plot / element call / api), then an edit of an input, then a read: every combination
-    b2 = dict(b1); b2["Ops"] = '{"SetConst","SetInit","SetFlow","SetStockEq","Eval","EvalElem","Plot"}'
+    b2 = dict(b1); b2["Ops"] = '{"SetConst","SetInit","SetInitElem","SetFlow","SetStockEq","Eval","EvalElem","Plot"}'
     routes, _ = gen.histories("Memo", b2, 3, extra_cfg={"init": "Init1", "next": "Next1", "action_constraints": ["MC_Fill"]},
                               defs='MC_Fill == LET n == Len(hist) IN /\\ (n \\in {0, 2} => hist\'[n + 1].op \\in {"Eval", "Plot"}) /\\ (n = 1 => hist\'[2].op \\notin {"Eval", "Plot"})\n')
     bfs = bfs + routes
